@@ -334,11 +334,17 @@ def real_grouped_tpm(case, tmp):
     if lines and lines[-1] == "":
         lines.pop()
     res = []
-    for l in lines:
-        if l.startswith("#"):
+    for i, l in enumerate(lines):
+        # the header is the FIRST line; a feature id may itself start with '#' (a row like any other)
+        if i == 0 and l.startswith("#feature_id\t"):
             continue
         p = l.split("\t")
-        res.append([p[0], [float(x) for x in p[1:] if x != ""]])      # a table without value columns prints "id\t"
+        try:
+            res.append([p[0], [float(x) for x in p[1:] if x != ""]])      # a table without value columns prints "id\t"
+        except ValueError:
+            # a tree that copies '#'-led feature rows into the TPM file as header lines (before fix_tpm_header) writes
+            # them with group-name text replaced nowhere: keep the raw cells, the comparison fails on them
+            res.append([p[0], p[1:]])
     return res
 
 
@@ -707,8 +713,7 @@ def check_tpm_case(case, tmp):
     for fid, vals in case["rows"]:
         if fid in stat:
             break
-        if not fid.startswith("#"):
-            rows.append((fid, vals))
+        rows.append((fid, vals))          # every row, whatever its id starts with ('#' included)
     if [f for f, _ in rows] != [f for f, _ in r]:
         return [("tpm_rows", "TPM table rows %s, count table rows %s" % ([f for f, _ in r][:6], [f for f, _ in rows][:6]))]
     res = []
